@@ -1864,6 +1864,14 @@ class C12(HistoryCheck):
             mag = 1.0 + max([float(np.abs(v).max()) for v in ins.values()] + [0.0])
             for o in c['outs']:
                 mag = max(mag, 1.0 + float(np.abs(np.array(sim.p.get_val(path + '.' + o['name']))).max()))
+                # round-off of an evaluation is relative to the size of the terms it sums, not of the result
+                t = np.abs(np.array(c['b'][o['name']], dtype=float))
+                for i in c['ins']:
+                    t = t + np.abs(np.array(c['A'][o['name']][i['name']], dtype=float)) @ np.abs(ins[i['name']])
+                if c['kind'] == 'imp':
+                    t = t + np.abs(np.array(c['D'], dtype=float)) @ np.abs(np.array(sim.p.get_val(path + '.' + o['name']),
+                                                                                  dtype=float).ravel())
+                mag = max(mag, 1.0 + float(t.max()))
             used = sim._used_fd_steps(c)
             if a['method'] == 'cs':
                 bound = 1e-11 * mag * 8
@@ -1893,6 +1901,16 @@ class C12(HistoryCheck):
                 bound = 256 * EPSF * mag * (1.0 + amax) * 8 / hmin
                 if c.get('quad') and a['form'] != 'central':
                     bound += float(np.abs(c['quad']['coef']).max()) * hmax * 2
+                if a['form'] != 'central' and sim._iterative():
+                    # one-sided differences take the residual vector as their base point; after an iterative
+                    # solve it is the residual of the last iterate the solver looked at, i.e. within the solver's
+                    # tolerance of the current state's (observed: 5e-11 left by NLBGS, 2.7e-7 in the partial)
+                    sc = 1.0
+                    for o in c['outs']:
+                        for k_ in ('res_ref', 'ref'):
+                            if k_ in o:
+                                sc = max(sc, float(np.max(np.abs(o[k_]))))
+                    bound += 10.0 * sim.nl_tol()['atol'] * sc / hmin
             for o in c['outs']:
                 pairs = [(i['name'], -1.0 if c['kind'] == 'imp' else 1.0, np.array(c['A'][o['name']][i['name']], dtype=float))
                          for i in c['ins']]
